@@ -313,7 +313,7 @@ def line_session(rng, *, kind, inertia, ratio=1, offset=0, human_leads=None, n=N
     return sc, {"n": n, "humans": sorted(humans), "iv": fstr(iv), "lines": [[fstr(x) for x in l] for l in lines],
                 "look_to": fstr(look_to), "human_blows": [[r, p, b, fstr(t)] for (r, p, b, t) in human_blows],
                 "gap": gap, "max": max_bells, "tol": fstr(Fraction(3, 1000) if jitter_us else TOL),
-                "after": fstr(look_to if prelude is not None else 0)}
+                "after": fstr(look_to if prelude is not None else 0), "jitter_us": jitter_us}
 
 
 def perturb_events(sc, moves):
@@ -487,7 +487,9 @@ class TempoSuite(PairedSuite):
         if orc["mode"] == "geometric":
             first = max([d for (r, p, d, tb) in dist if r <= 1] or [Fraction(0)])
             late = [d for (r, p, d, tb) in dist if r >= 13]
-            if first > Fraction(1, 1000) and late and max(late) > first / 50:
+            # (humans deliberately jittered by +-100 us put a floor of that order under the distance)
+            noise = Fraction(2 * orc.get("jitter_us", 100 if Fraction(orc["tol"]) > TOL else 0), 10 ** 6)
+            if first > Fraction(1, 1000) and late and max(late) > first / 50 + noise:
                 return (f"inertia {orc['inertia']}: distance to the humans' line {float(max(late)):.5f}s after 13 rows, "
                         f"{float(first):.5f}s at the start")
             return None
@@ -655,7 +657,11 @@ class OriginSuite(PairedSuite):
             # instants - a knife edge by construction - so the regression is inert there, as in the property)
             a, orc = line_session(rng, kind=kind, inertia=1.0 if kind == "wait" else rng.choice([0.0, 0.5, 1.0]),
                                   initial_inertia=1.0 if kind == "wait" else 0,
-                                  ratio=rng.choice([1, Fraction(102, 100)]), human_leads=rng.choice([True, False]),
+                                  ratio=rng.choice([1, Fraction(102, 100)]),
+                                  # (waiting mode, human leader: the line is then anchored on that human's own - early -
+                                  # strike, so every other early human lands within nanoseconds of the end of one of
+                                  # Wheatley's sleeps: below the resolution of a float at 1.8e9 s, a knife edge of ours)
+                                  human_leads=False if kind == "wait" else rng.choice([True, False]),
                                   nrows=6, early_ms=5 if kind == "wait" else 0,
                                   jitter_us=0 if kind == "wait" else 100)
             c = rng.choice([1, 1000, 10 ** 6, 1800000000])
